@@ -181,6 +181,10 @@ func RunC19(tier string) int {
 	// partial selections: the part of the graph that is loaded but not selected must not cost
 	// more than linear time either
 	cmds = append(cmds, []string{"build", "//:n0003"}, []string{"deps", "-t", "//:n0031"}, []string{"rdeps", "-t", "//:n0031"})
+	// selection for the graph query: transitive, with patterns that match the inner nodes of the
+	// diamonds (json and mermaid output: the tree rendering repeats shared sub-trees by design)
+	cmds = append(cmds, []string{"graph", "-t", "-o", "json"}, []string{"graph", "-t", "-o", "json", "//..."}, []string{"graph", "-t", "-o", "mermaid", "//:n0059"}, []string{"graph", "-o", "json"},
+		[]string{"list", "--target-type=all", "//:all"}, []string{"owners", "in.txt"})
 	compare := func(chn, lad *grog.Machine, args []string, tag string, env []string) {
 		rc := chn.Run(args, grog.RunOpts{Build: "c", Timeout: 60 * time.Second, Env: env})
 		rl := lad.Run(args, grog.RunOpts{Build: "l", Timeout: 60 * time.Second, Env: env})
@@ -228,6 +232,31 @@ func RunC19(tier string) int {
 		}
 		ladO, chnO := mkO(fmt.Sprintf("ladder-outs%d", vi), false), mkO(fmt.Sprintf("chain-outs%d", vi), true)
 		compare(chnO, ladO, []string{"check"}, "overlapping-outputs("+v.name+"):", nil)
+	}
+	// a dependency cycle with the whole ladder downstream of it: the cycle must be reported as
+	// quickly as on the chain (labels of the ladder sort before the labels of the cycle)
+	{
+		mkC := func(name string, chain bool) *grog.Machine {
+			ws := filepath.Join(dir, name)
+			_ = writeLadder(ws, 2, 30, chain)
+			b, _ := os.ReadFile(filepath.Join(ws, "BUILD.json"))
+			var pk map[string][]map[string]any
+			_ = json.Unmarshal(b, &pk)
+			for _, t := range pk["targets"] {
+				if t["name"] == "n0000" {
+					t["dependencies"] = []string{":zz_a"}
+				}
+			}
+			pk["targets"] = append(pk["targets"], map[string]any{"name": "zz_a", "command": "true", "dependencies": []string{":zz_b"}},
+				map[string]any{"name": "zz_b", "command": "true", "dependencies": []string{":zz_a"}})
+			nb, _ := json.Marshal(pk)
+			_ = os.WriteFile(filepath.Join(ws, "BUILD.json"), nb, 0644)
+			return &grog.Machine{Bin: g, Workspace: ws, Root: filepath.Join(dir, name+"-root"), Home: filepath.Join(dir, "home"), Trace: filepath.Join(dir, name+"-trace"), VctlBin: self}
+		}
+		ladC, chnC := mkC("ladder-cycle", false), mkC("chain-cycle", true)
+		for _, args := range [][]string{{"check"}, {"list", "//..."}, {"build", "//:n0059"}} {
+			compare(chnC, ladC, args, "cycle-upstream-of-everything:", nil)
+		}
 	}
 	run.Assume("operation counts are exact (atomic counters at the loop heads); CPU time is process rusage, not wall clock")
 	return run.Finish()
